@@ -1295,7 +1295,9 @@ namespace bloch::compiler {
             if (isTypeAhead()) {
                 std::unique_ptr<Type> targetType = parseType();
                 (void)expect(TokenType::RParen, "Expected ')' after type in cast expression");
-                std::unique_ptr<Expression> operand = parseUnary();
+                // The operand is a unary expression: prefix operators and the postfix forms that
+                // bind tighter than them (calls, indexing, member access), e.g. (float) f(3).
+                std::unique_ptr<Expression> operand = parsePrattExpression(kPrefixBindingPower);
                 std::unique_ptr<CastExpression> cast =
                     std::make_unique<CastExpression>(std::move(targetType), std::move(operand));
                 cast->line = lparen.line;
